@@ -63,9 +63,10 @@ theorem erase_append_self (l : List Nat) (i : Nat) (h : i ∉ l) : (l ++ [i]).er
 theorem lambdaBody_fin_wid (stdin : Bool) (id : Nat) (sc : Script) (b : Bool) :
     (lambdaBody stdin id sc b).2.wid = id ∧ ∀ m ∈ (lambdaBody stdin id sc b).1, m = ⟨id, .data⟩ := by
   unfold lambdaBody
-  cases b
-  · simp
-  · cases hl : sc.logs with
+  by_cases hb : (!b || sc.ctxDeadAtStart) = true
+  · simp [hb]
+  · simp only [hb, Bool.false_eq_true, if_false]
+    cases hl : sc.logs with
     | none => simp
     | some k =>
       by_cases ha : (stdin && !sc.attach) = true
